@@ -409,7 +409,7 @@ pub fn check_case(case: &CtxCase, nuls: &[usize], legs: &[Leg], rep: &mut Report
 }
 
 pub fn run(ctx: &Ctx) -> Report {
-    let n = ctx.cases(1200, 40_000);
+    let n = ctx.cases(5000, 150_000);
     crate::par_cases(ctx, 14, n, |rng, _i, rep| {
         let (case, nuls) = gen_case(rng);
         let legs = gen_legs(rng, &case);
